@@ -161,6 +161,12 @@ mut("sc_if_condition_inherits", ["C03"], "calAndSetShortCircuit/",
     [("compiler.go", "\t\tif pIdx != -1 && p.getNodeType() == cond && i > pIdx {\n\t\t\tif f[pIdx] != pIdx {", "\t\tif pIdx != -1 && p.getNodeType() == cond {\n\t\t\tif f[pIdx] != pIdx {")], "the condition of an if inherits the jumps of the if expression")
 mut("sc_second_pass_drops_target", ["C01"], "calAndSetShortCircuit/",
     [("compiler.go", "\t\t\t\tn.flag |= p.flag & scMask\n\t\t\t\tf[i] = f[pIdx]", "\t\t\t\tn.flag |= p.flag & scMask\n\t\t\t\tf[i] = pIdx")], "an if branch jumps to the if node instead of the if node's target")
+# ---- C02 / C06 (nesting reduction)
+mut("reduce_nesting_drops_first_grandchild", ["C06"], "optimizeReduceNesting/safety",
+    [("compiler.go", "\t\t\tchildren = append(children, child.children...)\n", "\t\t\tchildren = append(children, child.children[1:]...)\n")], "flattening skips the first operand of the nested operator (and slices an empty operand list)")
+mut("reduce_nesting_rewrites_child_list", ["C02"], "optimizeReduceNesting/storesite",
+    [("compiler.go", "\t\tif isAndOpNode(cn) == rootOpType {\n\t\t\tchildren = append(children, child.children...)\n",
+      "\t\tif isAndOpNode(cn) == rootOpType {\n\t\t\tchildren = append(children, child.children...)\n\t\t\tchild.children = nil\n")], "flattening also empties the nested operator, which other references still use")
 # ---- probes of mechanisms that only the bounded tier covers
 mut("reduce_nesting_merges_any_bool_operator", ["C02"], "bnd/",
     [("compiler.go", "\t\tif isAndOpNode(cn) == rootOpType {\n\t\t\tchildren = append(children, child.children...)", "\t\tif isAndOpNode(cn) == rootOpType || len(child.children) == 2 {\n\t\t\tchildren = append(children, child.children...)")], "a two-operand or inside an and (or vice versa) is flattened into its parent")
